@@ -377,15 +377,23 @@ func c18Word(c *explore.Ctx, base *explore.Base, bname, cfg string, word []explo
 	return nil
 }
 
-func runC18(c *explore.Ctx) {
-	// read side
-	gdir := filepath.Join(explore.VerifDir, "golden")
-	data, err := os.ReadFile(filepath.Join(gdir, "manifest.json"))
+func loadGoldenManifest() (map[string]*goldenEntry, error) {
+	data, err := os.ReadFile(filepath.Join(explore.VerifDir, "golden", "manifest.json"))
 	if err != nil {
-		c.HarnessError("golden corpus: %v", err)
+		return nil, err
 	}
 	manifest := map[string]*goldenEntry{}
 	if err := json.Unmarshal(data, &manifest); err != nil {
+		return nil, err
+	}
+	return manifest, nil
+}
+
+func runC18(c *explore.Ctx) {
+	// read side
+	gdir := filepath.Join(explore.VerifDir, "golden")
+	manifest, err := loadGoldenManifest()
+	if err != nil {
 		c.HarnessError("golden corpus: %v", err)
 	}
 	var names []string
